@@ -657,8 +657,11 @@ pub fn check_step(s: &Step, tr: &mut Tracker, viols: &mut Vec<Viol>) -> Decides 
                 }
                 exp.push('}');
                 // only the ORDER is this property's business: compare the sequence of keys shown
-                if debug_key_sequence(sg) != pre.ids() {
-                    out.push(C05, "debug-order", format!("Debug output {} differs from recency order {}", sg, exp));
+                let mut parts = sg.split('\u{1}');
+                let plain = parts.next().unwrap_or("");
+                let pretty = parts.next().unwrap_or("");
+                if debug_key_sequence(plain) != pre.ids() || debug_key_sequence(pretty) != pre.ids() {
+                    out.push(C05, "debug-order", format!("Debug output {} differs from recency order {}", plain, exp));
                 }
             }
         }
